@@ -19,6 +19,7 @@ def main():
     nv.build_pair('x')
     nv.build_pair('f')
     nv.build_rpc()
+    nv.build_thread()
     nv.build_single('life', 'life_main.cpp')
     print('setup ok')
 
